@@ -16,13 +16,24 @@ def thorough_extras(R, pid):
                 R.machinery.append("Lean lemma L1 does not check: " + (r.stdout + r.stderr)[-300:])
         except Exception as ex:  # noqa
             R.notes.append(f"Lean re-check skipped: {ex}")
+    lean2 = os.path.join(VERIF, "lemmas", "L2.lean")
+    if pid in ("C14",) and os.path.exists(lean2):
+        try:
+            r = subprocess.run(["lake", "env", "lean", lean2], capture_output=True, text=True, timeout=1800, cwd="/opt/veriftools/mathlib4")
+            ok = r.returncode == 0 and "error" not in (r.stdout + r.stderr).lower()
+            R.obligation("L.L2.prefix-sums-and-segments", "lemma", "discharged" if ok else "refuted", "LEAN", "lean4", 0.0,
+                         "fsum recurrence, monotonicity, congruence; every position of a concatenation lies in exactly one segment", lean2)
+            if not ok:
+                R.machinery.append("Lean lemma L2 does not check: " + (r.stdout + r.stderr)[-300:])
+        except Exception as ex:  # noqa
+            R.notes.append(f"Lean re-check skipped: {ex}")
 
 
 # seeded mutants (tools/mutants.py) that each property's VC part has to catch; harmless ones must stay green
 MUTANTS_FOR = {
     "C16": ["m10", "m28", "m44", "m45", "m46", "m48", "h60"], "C03": ["m10", "m11b", "m7", "m11"], "C04": ["m12", "m13", "m14", "m15", "m50", "m51"],
     "C02": ["m6", "m7", "m4", "m52", "m53", "h61"], "C01": ["m2", "m4"], "C05": ["m2"], "C06": ["m19", "m6"], "C07": ["m21", "m23"], "C08": ["m25"],
-    "C10": ["m28", "m31"], "C11": ["m31"], "C12": ["m6", "m35"], "C15": ["m41"], "C17": ["m46", "m48"],
+    "C10": ["m28", "m31"], "C11": ["m31"], "C12": ["m6", "m35"], "C14": ["m54", "m55", "m56", "m57"], "C15": ["m41"], "C17": ["m46", "m48"],
 }
 
 
